@@ -46,7 +46,7 @@ APPS_KNOBS = {'n_min': 2, 'n_max': 4,
 
 # an additional family: a peer restarts quicker than the detection delay (and is fenced, or dies again for good), then,
 # much later, ANOTHER peer falls silent: the detection must still work after the first episode
-QUICK_KNOBS = {'n_min': 3, 'n_max': 4, 'late_p': 0.0, 'trigger_p': 0.0,
+QUICK_KNOBS = {'n_min': 3, 'n_max': 4, 'late_p': 0.0, 'trigger_p': 0.0, 'profiles': ['wide', 'wide', 'bursty', 'lazy'],
                'fixed_script': [[{'kind': 'restart', 'down': (0.2, 6.0), 'gap_ticks': [2, 4]},
                                  {'kind': 'crash'}],
                                 [{'kind': 'restart', 'down': (0.2, 6.0), 'gap_ticks': [2, 4]},
